@@ -1144,6 +1144,11 @@ class Hist:
         for g in gates:
             if g in outs and rng.random() < 0.5:
                 ren[g] = g
+            elif g not in outs and rng.random() < 0.2:
+                # an inner gate of the replacement re-uses the label of the inner gate it stands for (the label is
+                # free once the old cone is gone; minimize_subcircuits recycles labels like this)
+                ren[g] = g
+                self.res.stats.probes.bump('replace_subcircuit-inner-label-recycled')
             else:
                 ren[g] = self.fresh_label(rng, net, taken)
                 taken.add(ren[g])
@@ -1224,6 +1229,16 @@ class Hist:
             return
         in_map = {l: sub_in[l] for l in leaves}
         out_map = {g: ren[g] for g in outs}
+        if len(outs) >= 2 and rng.random() < 0.12:
+            # the correspondence leaves out a cone gate that is still read outside the cone (typically by a gate that
+            # is itself listed as an input of the cut): the cone cannot go away; the call has to refuse, and if it
+            # returns normally the circuit must be what it was, functionally, and well formed
+            ext = net.users()
+            cand = [g for g in outs if g not in net.outputs and any(u not in gates for u in ext[g])]
+            if cand:
+                g0 = rng.choice(cand)
+                del out_map[g0]
+                self.res.stats.probes.bump('replace_subcircuit-mapping-omits-a-gate-still-used-outside')
         if equivalent and len(leaves) <= 4 and len(outs) <= 2 and len(gates) <= 5 and rng.random() < 0.3 and 'cs' in self.m:
             # the production use: re-synthesise the cone with CircuitFinderSat (SimSAT peer) and splice it in
             synth = self.synthesised_replacement(rng, net, leaves, outs, v_old, mask, taken)
